@@ -359,15 +359,15 @@ def rule_r6(chk):
             chk.ok("C03-R6", f"fords.kalmans{tag}[check {i}]", "conformability check performed")
 
 
-def rule_r7(chk):
-    chk.rule("C03-R7", "the smoother's backward recursions (r, N) run for every period up to the last one with observations: the guard of "
+def rule_r7(chk, rid="C03-R7"):
+    chk.rule(rid, "the smoother's backward recursions (r, N) run for every period up to the last one with observations: the guard of "
              "the block that updates r and N is a threshold on t (not a per-period quantity), and predict records the last "
              "period with observations under `any_y`", floor=1)
     km = chk.repo.mod(KMOD)
     osb = km.func("one_step_back")
     rec = [n for n in ast.walk(osb) if isinstance(n, ast.Assign) and unparse(n.targets[0]) in ("r", "N") and "L.T" in unparse(n.value)]
     if not rec:
-        chk.undecided("C03-R7", "fords.kalmans.one_step_back[recursion]", "r/N recursion not recognised", km.loc(osb))
+        chk.undecided(rid, "fords.kalmans.one_step_back[recursion]", "r/N recursion not recognised", km.loc(osb))
         return
     guards = []
     for n in rec:
@@ -380,7 +380,7 @@ def rule_r7(chk):
         per_period = [unparse(x) for x in ast.walk(g) if isinstance(x, ast.Subscript) and any(isinstance(y, ast.Name) and y.id == tname for y in ast.walk(x.slice))]
         # does the other branch keep the recursion going?
         ok = not per_period
-        chk.ob("C03-R7", f"fords.kalmans.one_step_back[recursion guard {txt}]", ok,
+        chk.ob(rid, f"fords.kalmans.one_step_back[recursion guard {txt}]", ok,
                "threshold on t: the recursion is contiguous" if ok else
                f"the r/N recursion runs only when {unparse(g)} — a per-period quantity ({per_period}): an interior period without "
                "observations interrupts the backward pass, so everything before the gap is smoothed wrongly", km.loc(g))
@@ -390,7 +390,7 @@ def rule_r7(chk):
     if uses:
         under_any = [n for n in lp if [squash(t) for t in _guards_of(n, pred)] == ["any_y"] and squash(n.value) == "t"]
         init = [n for n in lp if not _guards_of(n, pred)]
-        chk.ob("C03-R7", "fords.kalmans.predict[last period of observations]", bool(under_any) and bool(init),
+        chk.ob(rid, "fords.kalmans.predict[last period of observations]", bool(under_any) and bool(init),
                "initialised before the loop and set to t whenever period t has observations", km.loc(pred))
 
 
